@@ -25,7 +25,7 @@ ID = 'C12'
 LEVEL = 'model_checking'
 ENGINE = 'E2-lattice'
 FILES = ['regions/io/fits/write.py', 'regions/io/fits/read.py', 'regions/io/fits/core.py', 'regions/io/fits/connect.py']
-RULE = ('all lists of length <= 3 over a 10-region catalogue (point, circle, ellipse, circle/ellipse annulus, rotated and '
+RULE = ('all lists of length <= 3 over a 13-region catalogue (point, circle, circle and polygon with coordinates equal to 0, ellipse, circle/ellipse annulus, rotated and '
         'unrotated box, polygons with 3 and 5 vertices, regular polygon) + cyclic windows of length 4..8, crossed with include '
         'patterns {absent, True, False, 0, 1} and component patterns {absent, all given, partially given} and 3 media; 5 kinds of '
         'non-representable members inserted at every position of every list of length <= 2; hand-built tables: box, rotbox, '
@@ -38,7 +38,8 @@ BOUNDS = {'quick': 'lists <= 2 + windows, 3 include patterns, 3 component patter
 ASSUMPTIONS = ['astropy.table / astropy.io.fits are trusted to store and return float64 columns unchanged',
                'geometry is compared exactly (tolerance 0), angles in degrees exactly']
 
-CAT = ['point', 'circle', 'ellipse', 'circleannulus', 'ellipseannulus', 'rotbox', 'box', 'poly3', 'poly5', 'regpoly', 'ellipse_rad']
+CAT = ['point', 'circle', 'ellipse', 'circleannulus', 'ellipseannulus', 'rotbox', 'box', 'poly3', 'poly5', 'regpoly', 'ellipse_rad',
+       'poly_origin', 'circle_origin']
 NONREP = ['sky_circle', 'line', 'text', 'rectangleannulus', 'compound']
 INC_PATTERNS = ['absent', 'all_false', 'alt_False_True', 'alt_0_1', 'first_false']
 COMP_PATTERNS = ['absent', 'all', 'partial', 'partial_first', 'partial_desc', 'partial_mixed', 'all_desc']
@@ -75,6 +76,11 @@ def make(name, include='absent', component=None):
         return R.RectanglePixelRegion(c(60.25, 61.0), 5.0, 9.0, **kw)
     if name == 'poly3':
         return R.PolygonPixelRegion(PixCoord([1.0, 5.5, 3.0], [2.0, 2.5, 7.0]), **kw)
+    if name == 'poly_origin':
+        # zero is a coordinate value like any other: the last vertex is the pixel origin
+        return R.PolygonPixelRegion(PixCoord([4.0, 0.0, 0.0], [0.0, 3.0, 0.0]), **kw)
+    if name == 'circle_origin':
+        return R.CirclePixelRegion(c(0.0, 0.0), 1.5, **kw)
     if name == 'poly5':
         return R.PolygonPixelRegion(PixCoord([10.0, 14.0, 15.5, 12.0, 9.0], [1.0, 1.5, 4.0, 6.0, 3.5]), **kw)
     if name == 'regpoly':
